@@ -58,7 +58,7 @@ func C18(p *ir.Program, r *report.R) {
 			if s.Kind == "complit" {
 				continue
 			}
-			c.Guards(name, "store remPubKey", s.Instr, G{"verified", "crypto.PubKey.VerifyBytes(*)"})
+			c.GuardsS(name, "store remPubKey", s, G{"verified", "crypto.PubKey.VerifyBytes(*)"})
 		}
 		for _, call := range ir.Calls(fn, "conn.signChallenge") {
 			r.Check("K5", name+"/signs-same-challenge", p.InstrPos(call), Arg(call, 0) == chal && Arg(call, 1) == "locPrivKey", "the local side signs the same challenge with its own key: "+short(Arg(call, 0), 200))
@@ -168,7 +168,7 @@ func C18(p *ir.Program, r *report.R) {
 			v := ir.Render(s.Val)
 			if strings.HasPrefix(v, "append(") {
 				n++
-				c.Guards(name, "append", s.Instr, G{"within-capacity", "le((len(ch.recving) + len(packet.Bytes)),ch.desc.RecvMessageCapacity)"})
+				c.GuardsS(name, "append", s, G{"within-capacity", "le((len(ch.recving) + len(packet.Bytes)),ch.desc.RecvMessageCapacity)"})
 				r.Check("K1", name+"/append/bytes", p.InstrPos(s.Instr), v == "append(ch.recving,packet.Bytes)", "appends exactly the packet bytes: "+v)
 			}
 		}
